@@ -18,7 +18,6 @@ Proof. induction l; destruct i; simpl; intros; try discriminate; auto. congruenc
 Lemma upd_nth_other : forall {A} (f : A -> A) l i k, k <> i -> nth_error (upd_nth i f l) k = nth_error l k.
 Proof.
   induction l; destruct i; destruct k; simpl; intros; auto; try congruence.
-  apply IHl. congruence.
 Qed.
 
 Lemma pick_idx_from_spec : forall rq rs k best i z,
@@ -98,27 +97,36 @@ Proof.
   rewrite C. simpl. apply drop_last_app.
 Qed.
 
+Lemma has_char_cons : forall c d r, has_char c (String d r) = Ascii.eqb c d || has_char c r.
+Proof. reflexivity. Qed.
+
+Lemma escape_cons : forall c r, escape_arg (String c r) =
+  if Ascii.eqb c ch_cr then String ch_bslash (String "r"%char (escape_arg r))
+  else if Ascii.eqb c ch_lf then String ch_bslash (String "n"%char (escape_arg r))
+  else String c (escape_arg r).
+Proof. reflexivity. Qed.
+
 Lemma escape_safe : forall p, has_char ch_cr p = false -> has_char ch_lf p = false -> escape_arg p = p.
 Proof.
-  induction p as [|c r IH]; simpl; intros; auto.
-  apply orb_false_iff in H. apply orb_false_iff in H0. destruct H, H0.
-  rewrite Ascii.eqb_sym in H. rewrite Ascii.eqb_sym in H0. rewrite H, H0. now rewrite IH.
+  induction p as [|c r IH]; intros H H0; [reflexivity|].
+  rewrite has_char_cons in H, H0. apply orb_false_iff in H. apply orb_false_iff in H0. destruct H as [H1 H2], H0 as [H3 H4].
+  rewrite escape_cons. rewrite (Ascii.eqb_sym c ch_cr), H1, (Ascii.eqb_sym c ch_lf), H3. now rewrite IH.
 Qed.
 
 Lemma escape_len : forall p, (String.length p <= String.length (escape_arg p))%nat.
 Proof.
-  induction p as [|c r IH]; simpl; auto.
+  induction p as [|c r IH]; [simpl; auto|]. rewrite escape_cons.
   destruct (Ascii.eqb c ch_cr); [simpl; lia|]. destruct (Ascii.eqb c ch_lf); simpl; lia.
 Qed.
 
 Lemma escape_grows : forall p, has_char ch_cr p || has_char ch_lf p = true ->
   (String.length p < String.length (escape_arg p))%nat.
 Proof.
-  induction p as [|c r IH]; simpl; intros; [discriminate|].
-  pose proof (escape_len r).
+  induction p as [|c r IH]; intros H; [discriminate|].
+  pose proof (escape_len r). rewrite escape_cons. rewrite !has_char_cons in H.
   destruct (Ascii.eqb c ch_cr) eqn:E1; [simpl; lia|].
   destruct (Ascii.eqb c ch_lf) eqn:E2; [simpl; lia|].
-  rewrite Ascii.eqb_sym in E1. rewrite Ascii.eqb_sym in E2. rewrite E1, E2 in H. simpl in H.
+  rewrite (Ascii.eqb_sym ch_cr c), E1, (Ascii.eqb_sym ch_lf c), E2 in H. simpl in H.
   simpl. apply IH in H. lia.
 Qed.
 
@@ -311,17 +319,27 @@ Section Proofs.
 
   (* ---- parameters of a start ---- *)
 
+  Lemma escape_nul : forall p, has_char ch_nul (escape_arg p) = has_char ch_nul p.
+  Proof.
+    induction p as [|c r IH]; [reflexivity|]. rewrite escape_cons, has_char_cons.
+    destruct (Ascii.eqb c ch_cr) eqn:E1.
+    - apply Ascii.eqb_eq in E1. subst c. rewrite !has_char_cons, IH. reflexivity.
+    - destruct (Ascii.eqb c ch_lf) eqn:E2.
+      + apply Ascii.eqb_eq in E2. subst c. rewrite !has_char_cons, IH. reflexivity.
+      + rewrite has_char_cons, IH. reflexivity.
+  Qed.
+
+  Lemma nul_in_quote : forall s, has_char ch_nul (quote s) = has_char ch_nul s.
+  Proof.
+    intros. unfold quote. rewrite has_char_cons, has_char_app, has_char_cons. simpl (has_char ch_nul EmptyString).
+    change (Ascii.eqb ch_nul ch_quote) with false. simpl. now rewrite !orb_false_r.
+  Qed.
+
   Lemma spawnable_start : forall p loc, has_char ch_nul p = false -> has_char ch_nul loc = false ->
     spawnable (start_argv p loc) = true.
   Proof.
     intros. unfold spawnable, start_argv. apply negb_true_iff.
-    destruct (String.eqb p ""); simpl; rewrite H0; auto.
-    unfold quote. simpl. rewrite has_char_app. simpl.
-    assert (E : has_char ch_nul (escape_arg p) = false).
-    { clear H0. induction p as [|c r IH]; simpl in *; auto. apply orb_false_iff in H. destruct H.
-      destruct (Ascii.eqb c ch_cr); [simpl; auto|]. destruct (Ascii.eqb c ch_lf); simpl; auto.
-      rewrite H. auto. }
-    rewrite E. reflexivity.
+    destruct (String.eqb p ""); cbn [app existsb]; rewrite ?nul_in_quote, ?escape_nul, ?H, ?H0; reflexivity.
   Qed.
 
   (* C20_start_params: for parameters free of CR, LF and NUL an accepted start runs exactly
@@ -355,15 +373,7 @@ Section Proofs.
   Proof.
     intros. unfold spawn, spawnable, start_argv.
     destruct (String.eqb p "") eqn:E; [apply String.eqb_eq in E; subst; discriminate|].
-    simpl. unfold quote. simpl. rewrite has_char_app.
-    assert (X : has_char ch_nul (escape_arg p) = true).
-    { clear E. induction p as [|c r IH]; simpl in *; [discriminate|].
-      destruct (Ascii.eqb c ch_cr) eqn:E1.
-      - apply Ascii.eqb_eq in E1. subst c. simpl in H. simpl. auto.
-      - destruct (Ascii.eqb c ch_lf) eqn:E2.
-        + apply Ascii.eqb_eq in E2. subst c. simpl in H. simpl. auto.
-        + simpl. apply orb_true_iff in H. destruct H as [H|H]; [rewrite H; auto|]. rewrite IH by auto. apply orb_true_r. }
-    rewrite X. reflexivity.
+    cbn [app existsb]. rewrite nul_in_quote, escape_nul, H. reflexivity.
   Qed.
 
   (* ---- refused / malformed actions change nothing ---- *)
@@ -424,9 +434,15 @@ Section Proofs.
   Theorem refused_unknown_action : forall a id b act,
     b_action b = Some act -> known_action act = false -> post a id b = (400, a, []).
   Proof.
-    intros a id b act H K. unfold Model.post. rewrite H. unfold known_action in K. simpl in K.
-    repeat (apply orb_false_iff in K; destruct K as [?K K]).
-    rewrite K5. destruct (view (a_w a) id); auto. now rewrite K0, K1, K2, K3, K4, K6, K7.
+    intros a id b act H K. unfold Model.post. rewrite H.
+    destruct (String.eqb act "save") eqn:E0; [apply String.eqb_eq in E0; subst act; discriminate K|].
+    destruct (view (a_w a) id); auto.
+    repeat match goal with
+           | |- context [String.eqb act ?s] =>
+               let E := fresh "E" in
+               destruct (String.eqb act s) eqn:E; [apply String.eqb_eq in E; subst act; discriminate K|]
+           end.
+    reflexivity.
   Qed.
 
   Theorem refused_unknown_dag : forall a id b act,
